@@ -3,14 +3,14 @@ Lean: NutsProofs.Props.C18 over NutsModel.C18.{Url,DidWeb,Resolve,Policy} + rege
 Correspondence: in-package harnesses on the real vdr/didweb (DIDToURL, URLToDID, Resolve through the real strict
 http client, fake transport and real local TLS/HTTP servers) and on the real vdr.Module (router, local-first chain,
 deactivation, did:jwk / did:key)."""
-import ipaddress, json, os, re
+import base64, ipaddress, json, os, re
 from collections import Counter
 from urllib.parse import unquote_to_bytes, quote_from_bytes
 
 PKG = "vdr/didweb"
 HARNESS = ["vdr/didweb/zz_verif_c18_test.go"]
 HARNESSES = [("vdr/didweb", ["vdr/didweb/zz_verif_c18_test.go"], "c18"),
-             ("vdr", ["vdr/zz_verif_c18_test.go"], "c18vdr"),
+             ("vdr", ["vdr/zz_verif_c18_test.go", "vdr/zz_verif_c18jwk_test.go"], "c18vdr"),
              ("http/client", ["http/client/zz_verif_c18hc_test.go"], "c18hc"),
              ("vdr/didx509", ["vdr/didx509/zz_verif_c18x_test.go"], "c18x")]
 
@@ -235,12 +235,78 @@ def x5_oracle(op, line, opl, violation, outcomes, feats, distinct):
         violation("x509-revoked-chain-resolved", "resolved although the CRL check of the chain failed", opl)
 
 
+EC_CURVES = {
+    "P-256": (2**256 - 2**224 + 2**192 + 2**96 - 1, 0x5ac635d8aa3a93e7b3ebbd55769886bc651d06b0cc53b0f63bce3c3e27d2604b),
+    "P-384": (2**384 - 2**128 - 2**96 + 2**32 - 1, 0xb3312fa7e23ee7e4988e056be3f82d19181d9c6efe8141120314088f5013875ac656398d8a2ed19d2a85c8edd3ec2aef),
+    "P-521": (2**521 - 1, 0x051953eb9618e1c9a1f929a21a0b68540eea2da725b99b315f3b8b489918ef109e156193951ec7e937b1652c0bd3bb1bf073573df883d2c34f1ef451fd46b503f00),
+}
+B64STD = set(b"ABCDEFGHIJKLMNOPQRSTUVWXYZabcdefghijklmnopqrstuvwxyz0123456789+/")
+
+
+def b64u_int(v):
+    if not isinstance(v, str) or v == "":
+        return None
+    try:
+        return int.from_bytes(base64.urlsafe_b64decode(v + "=" * (-len(v) % 4)), "big")
+    except Exception:
+        return None
+
+
+def jwk_oracle(op, line, opl, rp, violation, outcomes, feats, distinct, digests):
+    """did:jwk on the resolver itself (deepening round 3): what `did_jwk_accept_sound` proves of the model, evaluated on the
+    implementation's own answer with the identifier decoded HERE (own alphabet check, Python's base64 / json, own curve equation)"""
+    m = re.fullmatch(r"jwk (\S+) dec=(\S*)", line)
+    if not m:
+        return
+    cls = m.group(1)
+    meth, idb = bytes.fromhex(op.get("m", "")), bytes.fromhex(op.get("id", ""))
+    tag = (op.get("tag") or "::").split(":")
+    outcomes["jwk " + cls.split(":")[0]] += 1
+    feats["jwk-shape=" + (tag[1] if len(tag) > 1 else "?")] += 1
+    feats["jwk-key=" + (tag[2] if len(tag) > 2 else "?")] += 1
+    distinct.add(("jwk", op.get("m"), op.get("id")))
+    if cls.startswith("other:"):
+        violation("did-jwk-unclassified-refusal", f"did:jwk refusal that is none of the resolver's documented ones: {cls[:120]}", rp)
+    if cls != "ok":
+        return
+    shown = (b"did:" + meth + b":" + idb)[:90]
+    if meth != b"jwk":
+        violation("did-jwk-resolver-accepted-other-method", f"didjwk resolved {shown!r}", rp)
+    body = idb.replace(b"\r", b"").replace(b"\n", b"")
+    if any(c not in B64STD for c in body) or len(body) % 4 == 1:
+        violation("did-jwk-accepted-not-base64", f"{shown!r} resolved although its method-specific part is not unpadded standard base64 (pure function of the identifier: one encoding)", rp)
+        return
+    raw = base64.b64decode(body + b"=" * (-len(body) % 4))
+    try:
+        # the FIRST JSON value of the text (the jwx parser reads one value from a stream and ignores what follows it)
+        j, _ = json.JSONDecoder().raw_decode(raw.decode("utf-8", "replace").lstrip(" \t\r\n"))
+    except Exception:
+        j = None
+    if not isinstance(j, dict) or not isinstance(j.get("kty"), str):
+        violation("did-jwk-accepted-not-a-jwk", f"{shown!r} resolved although it decodes to {raw[:60]!r}, which is not a JWK", rp)
+        return
+    if j["kty"] in ("EC", "OKP", "RSA") and "d" in j:
+        violation("did-jwk-accepted-with-private-key", f"{shown!r} resolved although the JWK it encodes carries the private member 'd'", rp)
+    if j["kty"] == "EC":
+        cv = EC_CURVES.get(j.get("crv"))
+        x, y = b64u_int(j.get("x")), b64u_int(j.get("y"))
+        if cv is None or x is None or y is None or not (x < cv[0] and y < cv[0]) or (y * y - (x * x * x - 3 * x + cv[1])) % cv[0] != 0:
+            violation("did-jwk-accepted-invalid-curve-point", f"{shown!r} resolved although (x, y) of its JWK is not a point of {j.get('crv')}", rp)
+    if op.get("keybound") is False:
+        violation("key-not-bound-to-identifier:jwk", f"the document returned for {shown!r} does not carry the id / key the identifier encodes", rp)
+    if op.get("again") != "same":
+        violation("not-a-function-of-the-identifier", f"two resolver instances gave different documents for {shown!r}", rp)
+    prev = digests.setdefault(b"did:" + meth + b":" + idb, op.get("digest"))
+    if prev != op.get("digest"):
+        violation("not-a-function-of-the-identifier", f"two resolutions of {shown!r} gave different documents", rp)
+
+
 def run(ctx):
     ctx.facts()
     thms = ctx.build_and_audit(["NutsProofs.Props.C18"])
     required = ["did_url_roundtrip", "fetch_origin_bound", "redirects_stay_on_origin", "strict_client_https_only",
                 "redirect_witness", "id_bound_web", "id_bound", "jwk_key_pure", "local_first_no_network",
-                "deactivated_needs_flag", "local_store_fault_no_network", "fact_local_resolver_errors", "fact_local_time_bound", "fact_cache_index", "fact_cache_flow", "rcache_invariant", "rcache_hit_sound", "rcache_hit_same_url", "rcache_round_trip_adds_only_this_cacheable_get", "fact_did_key_table", "did_key_accept_sound", "multicodec_prefix_roundtrip", "rcache_hit_not_expired", "old_cache_defect_witness", "fact_local_lookup_query", "local_lookup_exact", "local_lookup_ignores_other_dids", "local_sql_refines", "local_resolution_independent_of_other_dids", "x509_reference_is_the_identifier", "x509_split_join", "x509_policies_all_enforced", "x509_validation_cert_named_by_every_thumbprint", "x509_accept_sound", "x509_nil_metadata_panics", "fact_x509_tables", "cache_key_injective", "cache_no_foreign_entry", "fact_sets", "fact_content_types", "fact_redirect_policy", "fact_router",
+                "deactivated_needs_flag", "local_store_fault_no_network", "fact_local_resolver_errors", "fact_local_time_bound", "fact_cache_index", "fact_cache_flow", "rcache_invariant", "rcache_hit_sound", "rcache_hit_same_url", "rcache_round_trip_adds_only_this_cacheable_get", "fact_did_key_table", "did_key_accept_sound", "multicodec_prefix_roundtrip", "rcache_hit_not_expired", "old_cache_defect_witness", "fact_local_lookup_query", "local_lookup_exact", "local_lookup_ignores_other_dids", "local_sql_refines", "local_resolution_independent_of_other_dids", "x509_reference_is_the_identifier", "x509_split_join", "x509_policies_all_enforced", "x509_validation_cert_named_by_every_thumbprint", "x509_accept_sound", "x509_nil_metadata_panics", "fact_x509_tables", "fact_did_jwk_flow", "did_jwk_accept_sound", "b64_decode_encode", "did_jwk_of_encoded_text", "cache_key_injective", "cache_no_foreign_entry", "fact_sets", "fact_content_types", "fact_redirect_policy", "fact_router",
                 "fact_deactivation", "fact_resolve_checks_document_id", "fact_strict_do"]
     for r in required:
         if not any(t.endswith("Props." + r) for t in thms):
@@ -401,6 +467,8 @@ def run(ctx):
                         violation("document-id-differs", f"returned document id {bytes.fromhex(o[3:])!r} for did:web:{idb!r}", opl)
         elif kind == "hc":
             hc_oracle(op, line, opl, violation, outcomes, feats, distinct)
+        elif kind == "jwk":
+            jwk_oracle(op, line, opl, (node_line or '{"op":"node"}') + "\n" + opl, violation, outcomes, feats, distinct, digests)
         elif kind == "resolve":
             m = re.fullmatch(r"resolve reqs=(\d+) out=(.*)", line)
             if not m:
